@@ -88,7 +88,8 @@ def contention_case(draw, d):
     rp, rc = draw(st.sampled_from(roomy))
     kind = draw(st.sampled_from(['last-units', 'last-units', 'vs-inventory',
                                  'move-vs-put', 'traitagg-vs-alloc',
-                                 'reshape-vs-alloc', 'same-consumer']))
+                                 'reshape-vs-alloc', 'same-consumer',
+                                 'vs-delete']))
     v = versions_cg(draw)
     free_cons = [c for c in gen.CONS if c not in d.consumers]
     held = sorted(d.consumers)
@@ -140,7 +141,8 @@ def contention_case(draw, d):
         c = new_or_held(0)
         reqs['A'] = put_alloc(d, c, {(rp, rc): amount_for(c)}, v)
         invs = current_inv_body(d, rp)
-        how = draw(st.sampled_from(['shrink', 'drop', 'put-one']))
+        how = draw(st.sampled_from(['shrink', 'drop', 'put-one',
+                                    'delete-one']))
         g = d.providers[rp]['generation']
         if how == 'shrink':
             invs[rc] = dict(invs[rc])
